@@ -4,11 +4,14 @@
    prove about them, and the assurance that the *code's* accessors are equally pure comes
    from the falsifier (deep state snapshots around every accessor) - that part is partial.
    What is proved: calculating never alters a candle's timestamp, OHLCV, clean values or
-   tag, nor any entry it does not own; and the equivalent encodings of a candle decode to
-   the same candle. *)
+   tag, nor any entry it does not own; the equivalent encodings of a candle decode to
+   the same candle; Hexital.append hands the same candles to every manager (timeframe) it
+   holds - also one whose indicators have all been removed - and no member operation
+   (calculate, purge, recalculate, calculate_index, remove_indicator) drops a manager or
+   touches its candle data. *)
 From Coq Require Import ZArith List String Bool.
 From Hexital Require Import Base.Prelude Base.Num Model.Manager Model.Candle Model.Readings Model.Engine
-  Model.Hexital Proofs.FrameProofs Proofs.HexitalProofs.
+  Model.Hexital Proofs.FrameProofs Proofs.HexitalProofs Proofs.DeliverProofs.
 Import ListNotations.
 
 Theorem C19_calculating_never_alters_candle_data :
@@ -32,3 +35,30 @@ Theorem C19_encodings_decode_to_the_same_candle :
   decode O (RC_list O [IT_ts O ts; IT_num O o; IT_num O h; IT_num O l; IT_num O c; IT_num O v]) = Ok cnd.
 Proof. exact decode_encodings. Qed.
 Print Assumptions C19_encodings_decode_to_the_same_candle.
+
+Theorem C19_append_reaches_every_timeframe :
+  forall (O : NumOps) (h h' : hexital O) (new : list (cd (payload O))),
+  members_wf O h -> hx_append O h new = Ok h' ->
+  Forall2 (fun kv kv' => fst kv' = fst kv /\ fst (snd kv') = fst (snd kv) /\
+                         exists st1, mgr_append O (fst (snd kv)) (snd (snd kv)) new = Ok st1 /\
+                                     data_eq O st1 (snd (snd kv')))
+          (h_mgrs O h) (h_mgrs O h') /\ h_members O h' = h_members O h.
+Proof. exact append_delivers_everywhere. Qed.
+Print Assumptions C19_append_reaches_every_timeframe.
+
+Theorem C19_member_operations_keep_every_manager :
+  forall (O : NumOps) (hcfg : mcfg) (h h' : hexital O) (op : hop O),
+  members_wf O h ->
+  match op with HAppend _ _ | HAdd _ _ _ => False | _ => True end ->
+  hx_step O hcfg h op = Ok h' ->
+  mgrs_rel O (data_eq O) (h_mgrs O h) (h_mgrs O h').
+Proof. exact member_ops_keep_managers. Qed.
+Print Assumptions C19_member_operations_keep_every_manager.
+
+(* the hypothesis is met by every Hexital whose members are shipped indicators - and by one
+   with an orphaned timeframe and no member at all *)
+Example C19_shipped_members_are_well_formed :
+  forall (O : NumOps) (k : kind O) (name : string) (rnd : Z) (key : string) mgrs,
+  members_wf O {| h_mgrs := mgrs; h_members := [{| m_ind := top O k name rnd; m_mgr := key |}] |} /\
+  members_wf O {| h_mgrs := mgrs; h_members := [] |}.
+Proof. intros. split; [constructor; [apply wf_top|constructor]|constructor]. Qed.
